@@ -193,6 +193,18 @@ Proof.
   intros. rewrite <- (app_nil_r s) at 1. rewrite expand_plain_prefix; auto. now rewrite app_nil_r.
 Qed.
 
+(* map keys: with expansion disabled exactly the raw key is loaded (repaired code) ... *)
+Theorem disabled_keys : forall mapping key, loaded_keys true mapping key = [key].
+Proof. reflexivity. Qed.
+(* ... whereas the unchanged code also keeps the entry under the expanded key (finding F35) *)
+Lemma disabled_keys_orig_refuted :
+  exists (env : list (str * str)) (toks : list token),
+    wf_tokens toks = true /\ loaded_keys_orig true (getenv env) (print toks) <> [print toks].
+Proof.
+  exists [(b "X"%string, b "val"%string)], [TText (b "p"%string); TVar (b "X"%string)].
+  split; [reflexivity|]. vm_compute. discriminate.
+Qed.
+
 (* the value substituted for a name is the first definition in (process environment ++ .env files) *)
 Lemma getenv_app : forall e1 e2 n,
   getenv (e1 ++ e2) n = if existsb (fun kv => str_eqb (fst kv) n) e1 then getenv e1 n else getenv e2 n.
